@@ -27,7 +27,7 @@ def texts(tier, rng, n):
 
 def gen_par(tier, rng):
     out = []
-    n = 400 if tier == "quick" else 8000
+    n = 400 if tier == "quick" else 30000
     for b in texts(tier, rng, n):
         L = len(b)
         if tier == "quick":
